@@ -180,6 +180,60 @@ theorem mergeLoop_idem (close) (hcb : CloseB close) (l : Chunk) (rs : List Chunk
   rw [← e]
   exact mergeLoop_noClose close hcb l rs
 
+theorem wrap64_id (x : Int) (h1 : -(2 ^ 63) ≤ x) (h2 : x < 2 ^ 63) : wrap64 x = x := by
+  unfold wrap64; omega
+
+/-- every End in the output of the merge loop is the End of some input chunk -/
+theorem mergeLoop_ends (close) (l : Chunk) (rs : List Chunk) :
+    ∀ x, x ∈ mergeLoop close l rs → ∃ y, y ∈ l :: rs ∧ x.e = y.e := by
+  induction rs generalizing l with
+  | nil => intro x hx; simp [mergeLoop] at hx; exact ⟨l, by simp, by rw [hx]⟩
+  | cons r rs ih =>
+    intro x hx
+    unfold mergeLoop at hx
+    split at hx
+    · obtain ⟨y, hy, e⟩ := ih _ x hx
+      rcases List.mem_cons.1 hy with hy | hy
+      · subst hy
+        unfold mergeInto at e
+        simp only at e
+        split at e
+        · exact ⟨l, by simp, e⟩
+        · exact ⟨r, by simp, e⟩
+      · exact ⟨y, by simp [hy], e⟩
+    · rcases List.mem_cons.1 hx with hx | hx
+      · exact ⟨l, by simp, by rw [hx]⟩
+      · obtain ⟨y, hy, e⟩ := ih _ x hx
+        exact ⟨y, List.mem_cons_of_mem _ hy, e⟩
+
+/-- every Begin in the output of the merge loop is the Begin of some input chunk -/
+theorem mergeLoop_begins (close) (l : Chunk) (rs : List Chunk) :
+    ∀ x, x ∈ mergeLoop close l rs → ∃ y, y ∈ l :: rs ∧ x.b = y.b := by
+  induction rs generalizing l with
+  | nil => intro x hx; simp [mergeLoop] at hx; exact ⟨l, by simp, by rw [hx]⟩
+  | cons r rs ih =>
+    intro x hx
+    unfold mergeLoop at hx
+    split at hx
+    · obtain ⟨y, hy, e⟩ := ih _ x hx
+      rcases List.mem_cons.1 hy with hy | hy
+      · subst hy
+        exact ⟨l, by simp, e⟩
+      · exact ⟨y, by simp [hy], e⟩
+    · rcases List.mem_cons.1 hx with hx | hx
+      · exact ⟨l, by simp, by rw [hx]⟩
+      · obtain ⟨y, hy, e⟩ := ih _ x hx
+        exact ⟨y, List.mem_cons_of_mem _ hy, e⟩
+
+theorem noClose_congr (c1 c2 : Chunk → Chunk → Bool) (P : Chunk → Prop)
+    (h : ∀ a b, P a → P b → c1 a b = c2 a b) :
+    ∀ L : List Chunk, (∀ x, x ∈ L → P x) → NoClose c1 L → NoClose c2 L
+  | [], _, _ => trivial
+  | [_], _, _ => trivial
+  | a :: b :: rest, hall, hn => by
+    refine ⟨?_, noClose_congr c1 c2 P h (b :: rest) (fun x hx => hall x (List.mem_cons_of_mem _ hx)) hn.2⟩
+    rw [← h a b (hall a (by simp)) (hall b (by simp))]; exact hn.1
+
 theorem maxEnd_ge (right : Offset) (cs : List Chunk) :
     vOff right ≤ vOff (maxEnd right cs) ∧ ∀ c, c ∈ cs → vOff c.e ≤ vOff (maxEnd right cs) := by
   induction cs generalizing right with
